@@ -643,6 +643,10 @@ func (x *FnExec) runBlock(fr *frame, n *node) (*exitInfo, error) {
 				}
 				rs = append(rs, v)
 			}
+			if fr.depth == 0 && x.coverReturns {
+				o := x.addObl("vacuity", "return", n.reach, "false", "this return statement is reachable (expected sat; unsat means the proofs of this path are vacuous)", in.Pos())
+				o.Vacuity = true
+			}
 			return &exitInfo{reach: n.reach, st: st, results: rs}, nil
 		case *ssa.Panic:
 			n.outSt = st
